@@ -795,6 +795,13 @@ def _build_c13(inputs):
                 b = bytearray(raw)
                 for (off, val, width) in inputs["patch"]:
                     b[off:off + width] = int(val).to_bytes(width, "little")
+                for (vi, fi, off, val, width) in inputs.get("hdr_patch", []):
+                    # a field of the 140-byte sample header at the start of file fi of volume vi (partition 0)
+                    first = lay["partitions"][0]["volumes"][vi]["files"][fi]["sectors"][0]
+                    o = L.aw.sector_offset(lay, 0, first) + off
+                    b[o:o + width] = int(val).to_bytes(width, "little")
+                if inputs.get("cut"):
+                    del b[inputs["cut"]:]           # an incomplete dump
                 p = w.file("img.akai", bytes(b))
                 paths = ["", "A:", "A:/VOL A", "A:/VOL A/LONG", "B:/LAST/X1"]
             elif kind == "roland":
@@ -818,10 +825,25 @@ def _build_c13(inputs):
             for path in paths:
                 o, e = L.do_ls(p, path)
                 outcomes.append(type(e).__name__ if e else "ok")
-            o, e = L.do_export(p, w.sub("out"))
+            out = w.sub("out")
+            o, e = L.do_export(p, out)
             outcomes.append(type(e).__name__ if e else "ok")
-            return outcomes
+            tree = L.read_tree(out)
+            src = os.path.dirname(p) if kind == "cdda" else None
+            image_size = sum(os.path.getsize(os.path.join(src, f)) for f in os.listdir(src)) if src else os.path.getsize(p)
+            return {"outcomes": outcomes, "image_size": image_size, "files": len(tree), "written": sum(len(v) for v in tree.values()),
+                    "largest": max([len(v) for v in tree.values()] or [0])}
     return {"call": run, "env": {}}
+
+
+def _oracle_c13(inputs, kind, val, env):
+    # "within ... memory proportional to the size of the image": no single written file is larger than what the image can hold twice over
+    # (an L/R pair pads its shorter half to the longer: at most 2 x the data of one sample <= 2 x the image) plus the RIFF overhead
+    if kind != "return":
+        return []
+    if val["largest"] > 2 * val["image_size"] + 4096:
+        return [f"output-proportional-to-the-image(largest file {val['largest']} bytes from an image of {val['image_size']} bytes)"]
+    return []
 
 
 def _small_c13(tier, seed, shard=(0, 1)):
@@ -877,6 +899,21 @@ def _small_c13(tier, seed, shard=(0, 1)):
             elif lines:
                 lines[i] = rnd.choice(junk)
         cases.append({"kind": "cdda", "cue": "\n".join(lines) + "\n"})
+    # declared lengths that disagree with the data: sample windows (count / start / end) of a fragmented and of a short sample ...
+    for (fi, name) in ((2, "LONG"), (0, "KICK")):
+        for off in (26, 30, 34):
+            for v in ((0, 1, 8989, 8991, 0x7FFFFFFF, 0xFFFFFFFF) if tier != "quick" else rnd.sample((0, 1, 8991, 0x7FFFFFFF, 0xFFFFFFFF), 3)):
+                cases.append({"kind": "akai", "patch": [], "hdr_patch": [[0, fi, off, v, 4]]})
+        cases.append({"kind": "akai", "patch": [], "hdr_patch": [[0, fi, 30, 5000, 4], [0, fi, 34, 10, 4]]})          # end before start
+    # ... incomplete dumps (cut inside directories, headers, sample data, mid-sector) ...
+    for cut in ([100, 8192 + 700, 3 * 8192 + 150, 9 * 8192 + 1000, 20 * 8192 + 77, 21 * 8192, 22 * 8192 + 8191] if tier == "quick"
+                else [100, 4000] + [s * 8192 + d for s in range(1, 26) for d in (0, 150, 1000, 8191)]):
+        cases.append({"kind": "akai", "patch": [], "cut": cut})
+    # ... and cue sheets whose INDEX times run backwards, repeat, or lie far behind the end of the bin
+    for idx in (("00:00:04", "00:00:02"), ("00:00:02", "00:00:02"), ("00:00:00", "9000:00:00"), ("9000:00:00", "00:00:01"), ("00:00:05", "00:00:00"),
+                ("99:59:74", "99:59:74")):
+        cases.append({"kind": "cdda", "cue": "\n".join(['FILE "img.bin" BINARY', '  TRACK 01 AUDIO', '    TITLE "T1"', f'    INDEX 01 {idx[0]}', '  TRACK 02 AUDIO',
+                                                          f'    INDEX 01 {idx[1]}', '  TRACK 03 AUDIO', '    INDEX 01 00:00:03']) + "\n"})
     for k, c in enumerate(cases):
         if k % shard[1] == shard[0]:
             yield c
@@ -888,12 +925,13 @@ def _c13(c):
 
 
 CONCRETE["e2e:C13"] = {
-    "build": _build_c13, "small": _small_c13, "shards": 8,
+    "build": _build_c13, "small": _small_c13, "oracle": _oracle_c13, "shards": 8,
     "nontrivial": lambda i, s: s["kind"] == "return",
     "bound": "ls at 3..5 levels and export, each under a 20 s CPU alarm and a 6 GiB address-space limit, on: random byte files of 6 sizes; an AKAI "
              "image with each SAT word of the used region set to every special value and to in-range / out-of-range links, header and volume-entry "
              "fields, random byte damage; a Roland image with FAT words, counts, directory and parameter bytes damaged; cue sheets with "
-             "deleted / inserted / replaced lines incl. pathological tokens",
+             "deleted / inserted / replaced lines incl. pathological tokens; sample windows (count / start / end) that disagree with the data, "
+             "incomplete dumps cut at 7 / 100 places, INDEX times that run backwards or lie far behind the bin; no written file larger than twice the image",
     "timeout_s": 20.0, "budget_quick": 280, "budget_thorough": 1500,
 }
 
